@@ -588,10 +588,15 @@ pub fn run_batch(prop: &str, seed: u64, start: u64, runs: u64, dir: &PathBuf, kn
                     if c.owned_by(prop) {
                         // control: the same history with the victim as an ordinary, uninterrupted
                         // call. If that fails too the defect is not about suspension / cancellation.
-                        let mut ctl = case.clone();
-                        ctl.polls = 200;
-                        ctl.resume = true;
-                        if child_fails_any(dir, &ctl) {
+                        // (a) victim first, then the program; (b) the program first, then the victim.
+                        // A call that was never polled has done nothing: boundary 0 is sequential by itself.
+                        let mut ctl_a = case.clone();
+                        ctl_a.polls = 200;
+                        ctl_a.resume = true;
+                        let mut ctl_b = case.clone();
+                        ctl_b.polls = 0;
+                        ctl_b.resume = true;
+                        if polls == 0 || child_fails_any(dir, &ctl_a) || child_fails_any(dir, &ctl_b) {
                             c.owners.retain(|o| o != "C20");
                             res.counters.inc("control.uninterrupted_run_fails_too");
                         }
